@@ -1494,4 +1494,76 @@ theorem rspDispatch_measure (t : Trx) (a : Nat) (dbm : Int) (ha : CanonArfcn a)
     measureRspCb, hscan, hf16, hrt]
   rw [if_neg ha16]
 
+/-- length of the SETFH text: `CMD SETFH <hsn> <maio> ` and the mobile allocation text without its last blank -/
+theorem setfh_text_len (hsn maio : Nat) (ma : List Nat) (hne : ma ≠ []) :
+    (Emitted.text ⟨1, str "SETFH", fmtU (u8 hsn) :: fmtU (u8 maio) :: ma.flatMap pairToks⟩).length
+      = 11 + (fmtU (u8 hsn)).length + (fmtU (u8 maio)).length + (maText ma).length := by
+  have ht := maText_toks ma hne
+  have hne' : maText ma ≠ [] := by
+    cases ma with
+    | nil => exact absurd rfl hne
+    | cons a t => rw [maText_cons]; simp [pairOf, pairText]
+  have hl : ((ma.flatMap pairToks).flatMap (fun a => 32 :: a)).length = (maText ma).length := by
+    rw [← ht]
+    simp only [List.length_cons, List.length_dropLast]
+    have : 0 < (maText ma).length := List.length_pos_iff.mpr hne'
+    omega
+  simp only [Emitted.text, List.flatMap_cons, List.length_append, List.length_cons, hl]
+  have : (str "CMD ").length = 4 := by decide
+  have : (str "SETFH").length = 5 := by decide
+  omega
+
+theorem emitSpec_len (c : PhyCmd) (hv : ValidCmd c) : ∀ e ∈ emitSpec c, e.text.length ≤ 1015 := by
+  intro e he
+  have h4 : (str "CMD ").length = 4 := by decide
+  cases c with
+  | reset =>
+    simp only [emitSpec, List.mem_cons, List.mem_nil_iff, or_false] at he
+    rcases he with rfl | rfl <;> decide
+  | poweron => simp only [emitSpec, List.mem_singleton] at he; subst he; decide
+  | poweroff => simp only [emitSpec, List.mem_singleton] at he; subst he; decide
+  | measure a =>
+    simp only [emitSpec, List.mem_singleton] at he; subst he
+    have := fmtU_len_le (arfcn2freq10 a false * 100)
+    have : (str "MEASURE").length = 7 := by decide
+    simp only [Emitted.text, List.flatMap_cons, List.flatMap_nil, List.length_append, List.length_cons, List.length_nil]
+    omega
+  | setfreqH0 a =>
+    simp only [emitSpec, List.mem_cons, List.mem_nil_iff, or_false] at he
+    have := fmtU_len_le (arfcn2freq10 a false * 100)
+    have := fmtU_len_le (arfcn2freq10 a true * 100)
+    have : (str "RXTUNE").length = 6 := by decide
+    have : (str "TXTUNE").length = 6 := by decide
+    rcases he with rfl | rfl
+    all_goals
+      simp only [Emitted.text, List.flatMap_cons, List.flatMap_nil, List.length_append, List.length_cons, List.length_nil]
+      omega
+  | setfreqH1 hsn maio n ma =>
+    simp only [emitSpec, List.mem_singleton] at he; subst he
+    simp only [ValidCmd] at hv
+    obtain ⟨_, hne, hval, hlen⟩ := hv
+    rw [setfh_text_len hsn maio ma hne]
+    have := fmtU_u8_len_le hsn
+    have := fmtU_u8_len_le maio
+    have := maText_even ma hval
+    omega
+  | setslot tn pchan =>
+    simp only [emitSpec] at he
+    split at he
+    · simp only [List.mem_singleton] at he; subst he
+      rename_i ct _
+      have := fmtU_len_le (u8 tn)
+      have := fmtU_len_le ct
+      have : (str "SETSLOT").length = 7 := by decide
+      simp only [Emitted.text, List.flatMap_cons, List.flatMap_nil, List.length_append, List.length_cons, List.length_nil]
+      omega
+    · simp at he
+  | setta ta =>
+    simp only [emitSpec, List.mem_singleton] at he; subst he
+    have := fmtD_len_le (s8i ta)
+    have : (str "SETTA").length = 5 := by decide
+    simp only [Emitted.text, List.flatMap_cons, List.flatMap_nil, List.length_append, List.length_cons, List.length_nil]
+    omega
+  | raw ty => simp [emitSpec] at he
+
 end OsmoVerif.TrxconIf
